@@ -67,7 +67,7 @@ func init() {
 	add(&propSpec{ID: "C18", Level: "proof", Funcs: append([]string{"bexpr.Evaluator.Evaluate", "bexpr.evaluate", "bexpr.evaluateMatchExpression", "bexpr.evaluateCollectionExpression", "bexpr.evaluateCollectionExpression$1", "bexpr.getValue", "bexpr.evaluateNotPresent", "bexpr.Filter.Execute", "bexpr.CreateEvaluator", "bexpr.CreateFilter", "grammar.MaxExpressions"}, optFuncs...),
 		Trusted: trust("A-PS", "A-HOOK")})
 	add(&propSpec{ID: "C10", Level: "proof", Funcs: []string{"bexpr.CreateEvaluator", "bexpr.CreateFilter", "bexpr.compileRegexps", "grammar.MaxExpressions", "grammar.parser.parse", "grammar.parser.parse$1", "grammar.errList.add", "grammar.errList.err", "grammar.errList.dedupe", "grammar.parser.addErr", "grammar.parser.addErrAt"},
-		Trusted: trust("A-ENGINE", "A-STACK", "A-REGEXP")})
+		Extras: []string{"table:typing"}, Trusted: trust("A-ENGINE", "A-ACYCLIC", "A-STACK", "A-REGEXP")})
 	add(&propSpec{ID: "C11", Level: "proof", Funcs: []string{"grammar.parser.parseExpr", "grammar.parser.parseRule", "grammar.parser.parseActionExpr", "grammar.parser.parseAndCodeExpr",
 		"grammar.parser.parseAndExpr", "grammar.parser.parseAnyMatcher", "grammar.parser.parseCharClassMatcher", "grammar.parser.parseChoiceExpr", "grammar.parser.parseLabeledExpr",
 		"grammar.parser.parseLitMatcher", "grammar.parser.parseNotCodeExpr", "grammar.parser.parseNotExpr", "grammar.parser.parseOneOrMoreExpr", "grammar.parser.parseRecoveryExpr",
